@@ -95,7 +95,11 @@ def run(ctx):
         locks = [c for c in nonforeign_calls(drain) if c.fn is drain and c.is_("RwLock<T>::write", "RwLock<T>::read")]
         muts = [c for c in nonforeign_calls(drain) if c.fn is drain and strip_generics(c.resolved or "").split("::")[-1] in MUTATING and ("indexmap" in (c.resolved or "") or "hash::map" in (c.resolved or "") or "hashbrown" in (c.resolved or ""))]
         entries = [c for c in nonforeign_calls(drain) if c.fn is drain and strip_generics(c.resolved or "").split("::")[-1] in ("or_insert_with", "or_default", "or_insert")]
-        ok = len(locks) == 1 and locks[0].is_("RwLock<T>::write") and not muts and len(entries) >= 2
+        # `match map.entry(k) { Occupied(e) => e.into_mut(), Vacant(e) => e.insert(v) }` is or_insert(v) written out: an insert
+        # through the VacantEntry handed out by entry(), on its Vacant edge, cannot replace an existing value
+        vac = [c for c in muts if "VacantEntry" in (c.resolved or "") and callee_method_name(c) == "insert" and any(lab == "Vacant" and sym_is_call(dd, "entry") for dd, lab in gates(b, c.bb))]
+        muts = [c for c in muts if c not in vac]
+        ok = len(locks) == 1 and locks[0].is_("RwLock<T>::write") and not muts and len(entries) + len(vac) >= 2
         held = False
         if ok and cw:
             sy = Sym(drain)
